@@ -57,10 +57,15 @@ def optional_params(fn):
 
 
 def _known_non_none(x, facts):
+    from .boolalg import literal
     none = ("const", None)
+    isnone = literal(("cmp", "is", x, none))
+    eqnone = literal(("cmp", "==", x, none))
     for f in facts:
-        if f in (("not", ("cmp", "is", x, none)), ("cmp", "is not", x, none), ("not", ("cmp", "==", x, none)),
-                 ("cmp", "!=", x, none), x):
+        if f == x:
+            return True
+        lit = literal(f)
+        if lit in ((isnone[0], False), (eqnone[0], False)):
             return True
         if f[0] == "fn" and f[1] == "isinstance" and f[2] and f[2][0] == x:
             return True
@@ -408,8 +413,7 @@ def _budget_and_storage(run, prog, cls):
     E = check_guard_and_counter(inc, "BUDGET", cls.name)
     direct = [(ev, ctx) for ev, ctx in walk(s.events) if is_call_to(ev, inc.mf) and ev.method is None]
     imps = [(ev, ctx) for ev, ctx in walk(s.events) if is_call_to(ev, inc.imf, "impute")]
-    ok = len(direct) == 1 and not direct[0][1].loops and len(imps) == 1 and \
-        len([l for l in imps[0][1].loops if not l.comp]) == 1
+    ok = len(direct) == 1 and not direct[0][1].loops and len(imps) == 1 and len(imps[0][1].loops) == 1
     why = ""
     if len(direct) != 1 or (direct and direct[0][1].loops):
         why = f"{len(direct)} direct model call site(s)" + (" inside a loop" if direct and direct[0][1].loops else "")
@@ -418,7 +422,7 @@ def _budget_and_storage(run, prog, cls):
     elif not ok:
         why = "the imputer call is not inside exactly one per-feature loop"
     if ok:
-        lp = [l for l in imps[0][1].loops if not l.comp][0]
+        lp = imps[0][1].loops[0]
         from .drawlib import uniform_permutation
         it_ok = lp.iter == FEATURE_NAMES or uniform_permutation(lp.iter, FEATURE_NAMES)[0] in (True, "coerce")
         if not it_ok:
@@ -456,9 +460,9 @@ def _budget_and_storage(run, prog, cls):
     flag = inc.flag
     for p in ps:
         ups = [e for e in p.events if is_call_to(e, inc.sf, "update")]
-        lits = set(p.guards)
-        on = flag in lits
-        off = ("not", flag) in lits
+        from .boolalg import holds, excluded
+        on = holds(p.guards, flag)
+        off = excluded(p.guards, flag)
         if on and (len(ups) != 1 or _xy(ups[0]) != (inc.x, inc.y)):
             bad = f"with update_storage set the storage is updated {len(ups)} times" + \
                   ("" if len(ups) != 1 else " with other arguments than (x_i, y_i)")
